@@ -55,6 +55,9 @@ Section WithV.
     | Some (c, _) => c <> GConst -> c <> GSlices -> mult_spec (dims h) c <> 1
     end.
 
+  (** class of a key of the other input; a missing key counts as ('global','const') *)
+  Definition oclass (ko : kst) : cls := match ko with Some (c, _) => c | None => GConst end.
+
   Lemma knondeg_knd h s : knondeg h s -> knd h s.
   Proof. destruct s as [[c vs]|]; cbn; auto. Qed.
 
@@ -239,5 +242,162 @@ Section WithV.
       apply kvalid_next; [exact Hk | exact Hn|]. intros c0 vs0 _. rewrite Hd'. reflexivity.
     Qed.
 
+    (** * along time or vector *)
+    Lemma insert_sample_k_inv nS nT nV (sb : cbase) (sc : cls) (ks1 ko : kst) c1 lv r :
+      dims hs = (nS, nT, nV) ->
+      samples_of_base sb = Some sc ->
+      (sb = BTime /\ dims ho = (nS, 1, nV) /\ dims hs' = (nS, nT + 1, nV) /\
+       ((ndim hs = 5 /\ ndim ho = 5) \/ (ndim hs = 4 /\ nV = 1 /\ ndim ho <= 4))) \/
+      (sb = BVector /\ dims ho = (nS, nT, 1) /\ dims hs' = (nS, nT, nV + 1) /\ ndim hs = 5) ->
+      ks1 = Some (c1, lv) -> kvalid hs ks1 -> knd hs ks1 -> kvalid ho ko ->
+      (c1 = oclass ko \/ In c1 (preserving_f (Some (oclass ko)))) ->
+      insert_sample_k veqb vnone hs ho ks1 ko sb = Ok r -> kvalid hs' r /\ knd hs' r.
+    Proof.
+      intros Hd Hsc Hmode -> Hk Hn Hko Hrel H.
+      pose proof (dims_pos hs Hwfs) as Hp. rewrite Hd in Hp. destruct Hp as [HS [HT HV]].
+      unfold insert_sample_k in H. rewrite (visible_kvalid _ _ _ Hk), Hsc in H.
+      apply bind_ok in H as [ov [Hov H]].
+      pose proof Hk as [Hok1 [Hs1 Hl1]]. rewrite Hd in Hl1.
+      set (t5d := cbase_eqb sb BTime && (ndim hs =? 5)) in *.
+      assert (Hscns : is_slices sc = false).
+      { destruct sb; cbn [samples_of_base] in Hsc; try discriminate; injection Hsc as <-; reflexivity. }
+      (* the other input contributes exactly one value under the sample class *)
+      assert (HA : t5d = false -> forall ov', changed_class vnone ho ko sc (sdim hs) = Ok ov' ->
+                   (sc = oclass ko \/ In sc (preserving_f (Some (oclass ko)))) -> length ov' = 1).
+      { intros Ht ov' Hov' Hr.
+        destruct (class_ok (shape ho) sc) eqn:Eok.
+        - destruct (other_len ko sc ov' Hko Hov' Eok) as [Hl _]. rewrite Hl.
+          destruct Hmode as [[-> [Hdo [_ Hnd]]] | [-> [Hdo _]]]; cbn [samples_of_base] in Hsc; injection Hsc as <-;
+            rewrite Hdo; cbn [mult_spec]; [|reflexivity].
+          destruct Hnd as [[E5 _]|[_ [-> _]]]; [|reflexivity].
+          subst t5d. rewrite E5 in Ht. discriminate Ht.
+        - destruct (changed_class_len vnone ho ko sc (sdim hs) ov' Hwfo Hko sdarg_ok Hov') as [_ H2].
+          apply (H2 Eok).
+          destruct ko as [[c vs]|]; [right | left; reflexivity]. cbn [oclass] in Hr.
+          destruct Hko as [Hokc _].
+          destruct Hr as [->|Hin]; [congruence|].
+          destruct Hmode as [[-> [Hdo [_ Hnd]]] | [-> [Hdo _]]]; cbn [samples_of_base] in Hsc; injection Hsc as <-.
+          + destruct c; cbn [preserving_f In] in Hin; try (exfalso; intuition discriminate); [eauto|].
+            exfalso. rewrite (class_ok_ndim ho VSamples Hwfo) in Hokc. cbn [base_of] in Hokc. apply Nat.eqb_eq in Hokc.
+            destruct Hnd as [[E5 _]|[_ [_ Hle]]]; [|lia]. subst t5d. rewrite E5 in Ht. discriminate Ht.
+          + destruct c; cbn [preserving_f In] in Hin; try (exfalso; intuition discriminate). eauto. }
+      assert (Hsd'' : sdim hs <> None -> sdim hs' <> None) by (rewrite (sf_sd' _ _ _ _ SF); auto).
+      (* arithmetic of the sample class *)
+      assert (Hsample : t5d = false -> mult_spec (dims hs) sc + 1 = mult_spec (dims hs') sc /\ mult_spec (dims hs') sc <> 1).
+      { intros Ht. rewrite Hd. destruct Hmode as [[-> [_ [Hd' Hnd]]] | [-> [_ [Hd' _]]]]; cbn [samples_of_base] in Hsc; injection Hsc as <-;
+          rewrite Hd'; cbn [mult_spec]; [|split; lia].
+        destruct Hnd as [[E5 _]|[_ [-> _]]]; [|split; lia].
+        subst t5d. rewrite E5 in Ht. discriminate Ht. }
+      destruct (cls_eqb c1 GConst && negb t5d) eqn:Ea.
+      { (* (a) a constant that starts to vary *)
+        apply andb_true_iff in Ea as [Ec Et]. apply cls_eqb_eq in Ec. subst c1. apply negb_true_iff in Et.
+        assert (Hrelsc : sc = oclass ko \/ In sc (preserving_f (Some (oclass ko)))).
+        { destruct Hrel as [<-|Hin].
+          - right. destruct sb; cbn [samples_of_base] in Hsc; try discriminate; injection Hsc as <-; cbn; auto.
+          - exfalso. destruct (oclass ko); cbn [preserving_f In] in Hin; intuition discriminate. }
+        destruct (negb (list_eqb veqb lv ov)).
+        - apply bind_ok in H as [ks2 [Hks2 H]]. apply bind_ok in H as [ov2 [Hov2 H]].
+          destruct (change_class_k_valid vnone hs _ ks2 sc Hwfs Hk Hks2) as [lv2 [-> Hkv2]].
+          destruct (visible hs (Some (sc, lv2))) as [[c2 lv2']|] eqn:Evis; [|discriminate].
+          apply visible_some in Evis as [Heq Hoks]. injection Heq as <- <-. injection H as <-.
+          specialize (Hkv2 Hoks). destruct Hkv2 as [_ [_ Hl2]].
+          pose proof (HA Et ov2 Hov2 Hrelsc) as Hl3. destruct (Hsample Et) as [Hs1' Hs2'].
+          split.
+          + split; [apply (sf_mono _ _ _ _ SF); exact Hoks|]. split; [intros Hx; congruence|].
+            rewrite app_length, Hl2, Hl3. exact Hs1'.
+          + cbn [knd]. intros _ _. exact Hs2'.
+        - injection H as <-. apply kvalid_next; [exact Hk | exact Hn|].
+          intros c vs Heq. injection Heq as <- <-. destruct (dims hs') as [[? ?] ?], (dims hs) as [[? ?] ?]. reflexivity. }
+      destruct (cls_eqb c1 sc && negb t5d) eqn:Eb.
+      { (* (b) already under the sample class *)
+        apply andb_true_iff in Eb as [Ec Et]. apply cls_eqb_eq in Ec. subst c1. apply negb_true_iff in Et.
+        injection H as <-. pose proof (HA Et ov Hov Hrel) as Hl3. destruct (Hsample Et) as [Hs1' Hs2'].
+        split.
+        - split; [apply (sf_mono _ _ _ _ SF); exact Hok1|]. split; [intros Hx; congruence|].
+          rewrite app_length, Hl3. destruct Hk as [_ [_ Hl]]. rewrite Hl. exact Hs1'.
+        - cbn [knd]. intros _ _. exact Hs2'. }
+      destruct (cls_eqb c1 GConst && list_eqb veqb lv ov) eqn:Ecc.
+      { (* (c) an unchanged constant *)
+        apply andb_true_iff in Ecc as [Ec _]. apply cls_eqb_eq in Ec. subst c1.
+        injection H as <-. apply kvalid_next; [exact Hk | exact Hn|].
+        intros c vs Heq. injection Heq as <- <-. destruct (dims hs') as [[? ?] ?], (dims hs) as [[? ?] ?]. reflexivity. }
+      (* (d) the general path through ('global','slices') *)
+      apply bind_ok in H as [lo [Hlo H]].
+      assert (Hgo : class_ok (shape ho) GSlices = true) by (apply class_ok_global; [apply Hwfo | reflexivity]).
+      destruct (to_global_slices_len _ ko c1 lv ov lo eq_refl Hk Hko) as [Hl1' [Hl2' Hsdn]]; [|exact Hlo|].
+      { intros Hc1. rewrite Hc1 in Hov. apply (other_len ko GSlices ov Hko Hov Hgo). }
+      rewrite Hd in Hl1'. cbn [mult_spec] in Hl1'.
+      assert (Hres : forall vs, length vs = mult_spec (dims hs') GSlices -> kvalid hs' (Some (GSlices, vs)) /\ knd hs' (Some (GSlices, vs))).
+      { intros vs Hvs. split; [|intros _ Hx; contradiction].
+        split; [apply class_ok_global; [apply Hwfs' | reflexivity]|]. split; [intros _; apply Hsd''; exact Hsdn | exact Hvs]. }
+      destruct (sdim hs) as [sd|] eqn:Esd; [|contradiction].
+      fold t5d in H. destruct t5d eqn:Et.
+      - subst t5d. apply andb_true_iff in Et as [Eb5 E5]. apply Nat.eqb_eq in E5.
+        destruct Hmode as [[-> [Hdo [Hd' Hnd]]] | [-> _]]; [|discriminate Eb5].
+        destruct Hnd as [[_ E5o]|[E4 _]]; [|lia].
+        rewrite (n_slices_dims hs sd Hwfs Esd), Hd in H. cbn [fst] in H.
+        destruct (ndim5_dims hs Hwfs E5) as [_ [H3 [_ H4]]]. rewrite Hd in H3, H4. cbn [fst snd] in H3, H4.
+        destruct (ndim5_dims ho Hwfo E5o) as [_ [H3o _]]. rewrite Hdo in H3o. cbn [fst snd] in H3o.
+        rewrite H3, H3o, H4 in H. injection H as <-.
+        rewrite Hdo in Hl2'. cbn [mult_spec] in Hl2'.
+        apply Hres. rewrite Hd'. cbn [mult_spec]. rewrite interleave_len; nia.
+      - injection H as <-. apply Hres. rewrite app_length, Hl1', Hl2'.
+        destruct Hmode as [[-> [Hdo [Hd' _]]] | [-> [Hdo [Hd' _]]]]; rewrite Hdo, Hd'; cbn [mult_spec]; nia.
+    Qed.
+
+    (** * one [_insert] for one key *)
+    Lemma insert_k_inv (ks ko r : kst) :
+      kvalid hs ks -> knd hs ks -> kvalid ho ko -> knondeg ho ko ->
+      insert_k veqb vnone hs ho dim ks ko = Ok r -> kvalid hs' r /\ knd hs' r.
+    Proof.
+      intros Hk Hn Hko Hndo H. unfold insert_k in H.
+      set (ko2 := match visible ho ko with
+                  | Some (c, vs) => if is_slices c && negb (use_slices hs ho) then None else Some (c, vs)
+                  | None => None
+                  end) in *.
+      assert (Hko2 : kvalid ho ko2 /\ knondeg ho ko2).
+      { subst ko2. destruct ko as [[c vs]|]; [|split; exact I]. rewrite (visible_kvalid _ _ _ Hko).
+        destruct (is_slices c && negb (use_slices hs ho)); [split; exact I | split; assumption]. }
+      destruct Hko2 as [Hko2 Hnd2].
+      destruct (sf_mode _ _ _ _ SF) as [nS [nT [nV [Hd Hm]]]].
+      pose proof dims_order as [Hord1 Hord2].
+      assert (Hnone : ks = None -> ko2 = None -> r = None -> kvalid hs' r /\ knd hs' r).
+      { intros _ _ ->. split; exact I. }
+      assert (Hmain : forall ks1, reclassify_k vnone hs ks (oclass ko2) = Ok ks1 ->
+                (if odim_is (sdim hs) dim then insert_slice_k veqb vnone hs ho ks1 ko2
+                 else if dim <? 3 then insert_non_slice_k veqb vnone hs ho ks1 ko2
+                 else if dim =? 3 then insert_sample_k veqb vnone hs ho ks1 ko2 BTime
+                 else if dim =? 4 then insert_sample_k veqb vnone hs ho ks1 ko2 BVector
+                 else Ok ks1) = Ok r -> kvalid hs' r /\ knd hs' r).
+      { intros ks1 Hre Hins.
+        assert (Hoc : class_ok (shape hs) (oclass ko2) = true /\ (is_slices (oclass ko2) = true -> sdim hs <> None) /\
+                      (oclass ko2 <> GConst -> mult_spec (dims hs) (oclass ko2) <> 1)).
+        { destruct ko2 as [[c vs]|]; cbn [oclass].
+          - destruct Hko2 as [Hokc [Hsc _]]. split; [apply (sf_sub _ _ _ _ SF); exact Hokc|].
+            split; [rewrite <- (sf_sd_o _ _ _ _ SF); exact Hsc|].
+            intros Hc. specialize (Hnd2 Hc).
+            pose proof (mult_spec_mono (dims ho) (dims hs) c Hord1) as Hle.
+            pose proof (mult_spec_pos ho c Hwfo). lia.
+          - split; [apply class_ok_global; [apply Hwfs | reflexivity]|]. split; [discriminate | intros Hx; contradiction]. }
+        destruct Hoc as [Hoc1 [Hoc2 Hoc3]].
+        destruct (reclassify_k_inv (oclass ko2) ks ks1 Hk Hn Hoc1 Hoc2 Hoc3 Hre) as [c1 [vs1 [-> [Hk1 [Hn1 Hrel]]]]].
+        destruct Hm as [[Hod [Hdo [Hd' Hcls]]] | [[Hod [Hlt [Hdo [Hd' Hcls]]]] | [[Hod [Hdim [Hdo [Hd' Hnd]]]] | [Hod [Hdim [Hdo [Hd' Hnd]]]]]]];
+          rewrite Hod in Hins; try rewrite Hdim in Hins.
+        - apply (insert_slice_k_inv nS nT nV (Some (c1, vs1)) ko2 c1 vs1 r Hd Hod Hdo Hd' Hcls eq_refl Hk1 Hn1 Hko2 Hins).
+        - apply Nat.ltb_lt in Hlt. rewrite Hlt in Hins.
+          apply (insert_non_slice_k_inv (Some (c1, vs1)) ko2 r); [rewrite Hd', Hd; reflexivity | exact Hk1 | exact Hn1 | exact Hins].
+        - cbn [Nat.ltb Nat.leb Nat.eqb] in Hins.
+          apply (insert_sample_k_inv nS nT nV BTime TSamples (Some (c1, vs1)) ko2 c1 vs1 r Hd eq_refl); try assumption; try reflexivity.
+          left. repeat split; assumption.
+        - cbn [Nat.ltb Nat.leb Nat.eqb] in Hins.
+          apply (insert_sample_k_inv nS nT nV BVector VSamples (Some (c1, vs1)) ko2 c1 vs1 r Hd eq_refl); try assumption; try reflexivity.
+          right. repeat split; assumption. }
+      destruct ko2 as [[c vs]|] eqn:Eko2.
+      - apply bind_ok in H as [ks1 [Hre Hins]]. apply (Hmain ks1 Hre Hins).
+      - destruct (visible hs ks) as [[c vs]|] eqn:Evis.
+        + apply bind_ok in H as [ks1 [Hre Hins]]. apply (Hmain ks1 Hre Hins).
+        + injection H as <-. destruct ks as [[c vs]|]; [|split; exact I].
+          rewrite (visible_kvalid _ _ _ Hk) in Evis. discriminate.
+    Qed.
   End Step.
 End WithV.
